@@ -24,7 +24,7 @@ impl Property for C12 {
         vec!["the fault-injecting database is harness code delegating to the lowered Program; program_clauses_for_env goes through the wrapper so nested callbacks are counted".into()]
     }
     fn cases_per_shard(&self, tier: Tier) -> u32 {
-        tier.pick(12, 300)
+        tier.pick(80, 1200)
     }
     fn decode(&self, t: &mut Tape, _tier: Tier) -> PG {
         let cfg = if t.chance(40) { GenCfg::horn_auto() } else { GenCfg::horn() };
